@@ -31,7 +31,11 @@ end AList
 /-! ## data -/
 
 abbrev Name := Str
-abbrev Ver := Str
+/-- a version name as written in tables and on the command line -/
+abbrev VStr := Str
+/-- the identity of a declared version: its name and the stack (index into the list of stacks) that declares it —
+what a `SETUP_<P>` record holds (`name version -f flavor -Z stack`) -/
+abbrev Ver := VStr × Nat
 abbrev Prod := Name × Ver
 
 /-- an element of a path variable / the value of a variable -/
@@ -54,22 +58,23 @@ inductive RelOp where | lt | le | eq | ge | gt
 deriving DecidableEq, Repr
 
 /-- `op v || op v || …` -/
-abbrev VExpr := List (RelOp × Ver)
+abbrev VExpr := List (RelOp × VStr)
 
 /-- what a request names: an explicit version or a relational expression -/
 inductive VerReq where
-  | explicit (v : Ver)
+  | explicit (v : VStr)
   | expr (e : VExpr)
 deriving DecidableEq, Repr
 
 /-- `prepend`: `envPrepend` / `envAppend` (`append`) of a value that holds one or several delimiter-separated pieces
 (`${PRODUCT_DIR}/bin:${PRODUCT_DIR}/scripts`); `dep`: `setupRequired` / `setupOptional` with `-j`, a version, `[expr]`
-and the line's own `-t` tags -/
+the line's own `-t` tags and its own `-k` -/
 inductive Act where
   | prepend (var : Str) (vals : List Val) (append : Bool)
   | set (var : Str) (val : Val)
   | alias (key : Str) (val : Str)
   | dep (name : Name) (optional : Bool) (just : Bool) (ver : Option VerReq) (vexpr : Option VExpr) (tags : List Str)
+      (keepLine : Bool)
 deriving DecidableEq, Repr
 
 /-- `if (type == exact) { … } else { … }` around an action -/
@@ -103,11 +108,18 @@ deriving Repr
 def Db.lookup (db : Db) (p : Prod) : Option Decl :=
   db.decls.find? (fun d => d.name = p.1 ∧ d.ver = p.2)
 
-def Db.versions (db : Db) (n : Name) : List Ver :=
-  (db.decls.filter (fun d => d.name = n)).map (·.ver)
+/-- the first stack on the path (`EUPS_PATH` order) that declares the version -/
+def Db.findVer (db : Db) (path : List Nat) (n : Name) (v : VStr) : Option Decl :=
+  path.findSome? (fun k => db.lookup (n, (v, k)))
 
-def Db.tagged (db : Db) (t : Str) (n : Name) : Option Ver :=
-  (db.tags.find? (fun x => x.1 = t ∧ x.2.1 = n)).map (·.2.2)
+/-- the version names of a product in the stacks of the path, in path order -/
+def Db.versionsOn (db : Db) (path : List Nat) (n : Name) : List VStr :=
+  path.flatMap (fun k => (db.decls.filter (fun d => d.name = n ∧ d.ver.2 = k)).map (·.ver.1))
+
+/-- the first stack on the path whose chain file for the tag names a version that is declared there -/
+def Db.tagged (db : Db) (path : List Nat) (t : Str) (n : Name) : Option Decl :=
+  path.findSome? (fun k =>
+    (db.tags.find? (fun x => x.1 = t ∧ x.2.1 = n ∧ x.2.2.2 = k)).bind (fun x => db.lookup (n, x.2.2)))
 
 /-! ## version order on dotted numeric names (the fragment the generator uses; C10 owns the full order) -/
 
@@ -115,7 +127,7 @@ def splitDots : Str → Str → List Str
   | cur, [] => [cur.reverse]
   | cur, c :: cs => if c = 46 then cur.reverse :: splitDots [] cs else splitDots (c :: cur) cs
 
-def comps (v : Ver) : List Nat := (splitDots [] v).map Str.toNat
+def comps (v : VStr) : List Nat := (splitDots [] v).map Str.toNat
 
 /-- -1 / 0 / 1: component-wise numeric, the shorter prefix first -/
 def cmpComps : List Nat → List Nat → Int
@@ -124,7 +136,7 @@ def cmpComps : List Nat → List Nat → Int
   | _ :: _, [] => 1
   | a :: as, b :: bs => if a < b then -1 else if b < a then 1 else cmpComps as bs
 
-def vcmp (a b : Ver) : Int := if a = b then 0 else cmpComps (comps a) (comps b)
+def vcmp (a b : VStr) : Int := if a = b then 0 else cmpComps (comps a) (comps b)
 
 def RelOp.holds (op : RelOp) (c : Int) : Bool :=
   match op with
@@ -135,10 +147,10 @@ def RelOp.holds (op : RelOp) (c : Int) : Bool :=
   | .gt => c > 0
 
 /-- `Eups.version_match` on `op v || op v …` -/
-def vmatch (v : Ver) (e : VExpr) : Bool := e.any (fun (op, rhs) => op.holds (vcmp v rhs))
+def vmatch (v : VStr) (e : VExpr) : Bool := e.any (fun (op, rhs) => op.holds (vcmp v rhs))
 
 /-- the last maximum (`vers.sort(); vers[-1]`, then the first product carrying that version) -/
-def latest : List Ver → Option Ver
+def latest : List VStr → Option VStr
   | [] => none
   | v :: vs => match latest vs with
     | none => some v
@@ -184,39 +196,36 @@ def selectVRO (keep inexact : Bool) (tags : List Str) : List VroEnt :=
 abbrev Already := List (Name × (Decl × Option VroEnt))
 
 /-- the loop of `findProductFromVRO`; result = (product, reason[0], the entry at which the loop stopped) -/
-def walk (db : Db) (already : Already) (name : Name) (version : Option VerReq) (depth : Nat) :
+def walk (db : Db) (path : List Nat) (already : Already) (name : Name) (version : Option VerReq) (depth : Nat) :
     Option VExpr → List VroEnt → Option (Decl × VroEnt × VroEnt)
   | _, [] => none
   | vexpr, ent :: post =>
     match ent with
-    | .path | .typeExact | .warn => walk db already name version depth vexpr post
+    | .path | .typeExact | .warn => walk db path already name version depth vexpr post
     | .keep =>
       if depth > 0 then
         match aget already name with
         | some (d, _) => some (d, .keep, .keep)
-        | none => walk db already name version depth vexpr post
-      else walk db already name version depth vexpr post
+        | none => walk db path already name version depth vexpr post
+      else walk db path already name version depth vexpr post
     | .commandLine =>
       match aget already name with
       | some (d, some .commandLine) => some (d, .commandLine, .commandLine)
-      | _ => walk db already name version depth vexpr post
+      | _ => walk db path already name version depth vexpr post
     | .tag t =>
-      match db.tagged t name with
-      | some v =>
-        (match db.lookup (name, v) with
-         | some d => some (d, .tag t, .tag t)
-         | none => walk db already name version depth vexpr post)
-      | none => walk db already name version depth vexpr post
+      match db.tagged path t name with
+      | some d => some (d, .tag t, .tag t)
+      | none => walk db path already name version depth vexpr post
     | .version | .versionBang | .versionExpr =>
       match version with
-      | none => walk db already name version depth vexpr post
+      | none => walk db path already name version depth vexpr post
       | some req =>
         -- a relational expression in place of the version is only for the `versionExpr` entry
         let skip : Option Bool := match req with      -- some true = continue, some false = break
           | .expr _ => if ent ≠ .versionExpr then some (decide (VroEnt.versionExpr ∈ post)) else none
           | .explicit _ => none
         match skip with
-        | some true => walk db already name version depth vexpr post
+        | some true => walk db path already name version depth vexpr post
         | some false => none
         | none =>
           let vexpr : Option VExpr := match req with
@@ -226,8 +235,8 @@ def walk (db : Db) (already : Already) (name : Name) (version : Option VerReq) (
             if ent = .versionExpr then
               match vexpr with
               | some e =>
-                (match latest ((db.versions name).filter (fun v => vmatch v e)) with
-                 | some v => db.lookup (name, v)
+                (match latest ((db.versionsOn path name).filter (fun v => vmatch v e)) with
+                 | some v => db.findVer path name v
                  | none => none)
               | none => none
             else none
@@ -235,18 +244,18 @@ def walk (db : Db) (already : Already) (name : Name) (version : Option VerReq) (
           | some d => some (d, .versionExpr, ent)
           | none =>
             let byVer : Option Decl := match req with
-              | .explicit v => db.lookup (name, v)
+              | .explicit v => db.findVer path name v
               | .expr _ => none
             match byVer with
             | some d => some (d, if depth = 0 then .commandLine else .version, ent)
             | none =>
-              if post.any VroEnt.isVersionType then walk db already name version depth vexpr post
+              if post.any VroEnt.isVersionType then walk db path already name version depth vexpr post
               else none
 
 /-- `findProductFromVRO`: the walk, then "an earlier reason outranks a later one" over `alreadySetupProducts` -/
-def find (db : Db) (already : Already) (name : Name) (version : Option VerReq) (vexpr : Option VExpr)
+def find (db : Db) (path : List Nat) (already : Already) (name : Name) (version : Option VerReq) (vexpr : Option VExpr)
     (depth : Nat) (vro : List VroEnt) : Option (Decl × VroEnt) :=
-  match walk db already name version depth vexpr vro with
+  match walk db path already name version depth vexpr vro with
   | none => none
   | some (d, reason, ent0) =>
     match aget already name with
@@ -262,28 +271,28 @@ deriving Repr
 
 /-- the `while not product and vro` loop of `Eups.setup` (one flavor).  `k` bounds the number of
 iterations; every iteration that continues strictly shortens `vro`, so `k = vro.length` suffices. -/
-def resolve (db : Db) (keep : Bool) (already : Already) (name : Name) (version : Option VerReq)
+def resolve (db : Db) (path : List Nat) (keep : Bool) (already : Already) (name : Name) (version : Option VerReq)
     (vexpr : Option VExpr) (depth : Nat) : Nat → List VroEnt → Resolved
   | 0, _ => .none
   | k + 1, vro =>
     if vro.isEmpty then .none else
     let r : Option (Decl × Option VroEnt) :=
-      match find db already name version vexpr depth vro with
+      match find db path already name version vexpr depth vro with
       | some (d, reason) => some (d, some reason)
       | none =>
         match aget already name with
         | some (d, _) =>
-          if !keep && (version ≠ some (.explicit d.ver)) then none else some (d, none)
+          if !keep && (version ≠ some (.explicit d.ver.1)) then none else some (d, none)
         | none => none
     match r with
     | none => .none
     | some (d, reason) =>
       match version with
       | some (.explicit v) =>
-        if depth = 0 ∧ d.ver ≠ v then
+        if depth = 0 ∧ d.ver.1 ≠ v then
           match reason with
           | none => .error
-          | some r => if r ∈ vro then resolve db keep already name version vexpr depth k (vro.drop (vro.idxOf r + 1))
+          | some r => if r ∈ vro then resolve db path keep already name version vexpr depth k (vro.drop (vro.idxOf r + 1))
                       else .error
         else .found d reason
       | _ => .found d reason
@@ -332,6 +341,7 @@ deriving Repr
 
 structure Cfg where
   db : Db
+  path : List Nat            -- `EUPS_PATH`: the stacks this command searches, in order
   keep : Bool
   maxDepth : Option Nat      -- `max_depth`; none = -1
   exact : Bool               -- "exact" ∈ setupType
@@ -350,18 +360,20 @@ def Act.apply (fwd : Bool) (p : Prod) : Act → St → St
   | .alias key val, s =>
     if fwd then { s with aliases := aset s.aliases key val }
     else { s with aliases := aunset s.aliases key, unaliased := key :: s.unaliased.filter (· ≠ key) }
-  | .dep _ _ _ _ _ _, s => s
+  | .dep _ _ _ _ _ _ _, s => s
 
 /-- the action loop of `Eups.setup` (`a.execute(self, recursionDepth + 1, fwd, noRecursion, …)`);
 `depth` is the `recursionDepth` of the product `d` whose table this is. -/
 def acts (rec : Rec) (cfg : Cfg) (fwd : Bool) (depth : Nat) (noRec : Bool) (vro : List VroEnt) (d : Decl) :
     List Act → St → Res
   | [], s => .ok s
-  | .dep n opt just ver vexpr tags :: rest, s =>
+  | .dep n opt just ver vexpr tags keepLine :: rest, s =>
     if noRec || cfg.maxDepth = some depth then acts rec cfg fwd depth noRec vro d rest s
     else
-      -- processArgs: the line's -t tags go in front of the current VRO, then "keep" in front of everything
-      let vro' := if VroEnt.keep ∈ vro then VroEnt.keep :: (tags.map VroEnt.tag ++ vro) else tags.map VroEnt.tag ++ vro
+      -- processArgs: the line's -t tags go in front of (a copy of) the current VRO, then "keep" in front of
+      -- everything when the VRO in force has it or the line says -k; for this line only
+      let vro' := if VroEnt.keep ∈ vro ∨ keepLine = true then VroEnt.keep :: (tags.map VroEnt.tag ++ vro)
+                  else tags.map VroEnt.tag ++ vro
       match rec fwd (depth + 1) just vro' n (if fwd then ver else none) (if fwd then vexpr else none) s with
       | .ok s' => acts rec cfg fwd depth noRec vro d rest s'
       | .fuel => .fuel
@@ -397,7 +409,7 @@ def install (rec : Rec) (cfg : Cfg) (depth : Nat) (noRec : Bool) (vro : List Vro
   match setupProd cfg.db s.env d.name with
   | none => acts rec cfg true depth noRec vro d (d.actions cfg.exact) (record d reason s)
   | some sd =>
-    if (sd.ver == d.ver || sd.dir == d.dir) && decide (depth > 0) then .ok s
+    if (sd.ver.1 == d.ver.1 || sd.dir == d.dir) && decide (depth > 0) then .ok s
     else
       -- unsetupSetupProduct (at the same depth, so that max_depth keeps counting from the request);
       -- its outcome is not looked at
@@ -411,7 +423,7 @@ def setup (cfg : Cfg) : Nat → Rec
   | 0 => fun _ _ _ _ _ _ _ _ => .fuel
   | fuel + 1 => fun fwd depth noRec vro name version vexpr s =>
     if fwd then
-      match resolve cfg.db cfg.keep s.already name version vexpr depth vro.length vro with
+      match resolve cfg.db cfg.path cfg.keep s.already name version vexpr depth vro.length vro with
       | .none => .notFound s
       | .error => .raised s
       | .found d reason => install (setup cfg fuel) cfg depth noRec vro d reason (register cfg depth d reason s)
@@ -429,9 +441,10 @@ structure Request where
   maxDepth : Option Nat
   inexact : Bool
   tags : List Str
+  path : List Nat            -- the stacks on `EUPS_PATH` (or `-Z`) for this command
 deriving Repr
 
-def Request.cfg (r : Request) (db : Db) : Cfg := ⟨db, r.keep, r.maxDepth, !r.inexact⟩
+def Request.cfg (r : Request) (db : Db) : Cfg := ⟨db, r.path, r.keep, r.maxDepth, !r.inexact⟩
 def Request.vro (r : Request) : List VroEnt := selectVRO r.keep r.inexact r.tags
 
 def St.init (e : Env) : St := ⟨e, [], [], []⟩
